@@ -1,0 +1,89 @@
+//go:build verif
+
+package ecs
+
+import (
+	"sync"
+	"time"
+)
+
+// Verif holds the simulation seams used by the deterministic-simulation
+// harness in /verif. All fields are nil by default, in which case every hook
+// is a no-op. Only compiled with build tag "verif".
+var Verif struct {
+	// Yield is called at synchronisation points of the world lock.
+	// For kind VerifBeforeLock, mu is the mutex that is acquired next.
+	Yield func(kind uint8, mu *sync.Mutex)
+	// Skew maps the start time of a Shrink pass; moving it backwards
+	// simulates elapsed time.
+	Skew func(start time.Time) time.Time
+	// Probe is called with a probe ID when a rare internal path is taken.
+	Probe func(id uint8)
+}
+
+// Kinds of yield points.
+const (
+	verifBeforeLock  uint8 = iota // before mu.Lock()
+	verifInLock                   // inside the critical section
+	verifAfterUnlock              // after mu.Unlock()
+)
+
+// Exported aliases of the yield kinds, for the harness.
+const (
+	VerifBeforeLock  = verifBeforeLock
+	VerifInLock      = verifInLock
+	VerifAfterUnlock = verifAfterUnlock
+)
+
+// Probe IDs.
+const (
+	verifProbeTableRecycled uint8 = iota
+	verifProbeTableFreedCleanup
+	verifProbeTableFreedShrink
+	verifProbeTableGrow
+	verifProbeTableShrink
+	verifProbeColumnResetSmall
+	verifProbeColumnResetLarge
+	verifProbeCacheAdd
+	verifProbeCacheRemove
+	verifProbeChildrenMoved
+	verifProbeSwapRemove
+	verifProbeBatchIntoNonEmpty
+	verifProbeCount
+)
+
+// Exported aliases of the probe IDs, for the harness.
+const (
+	VerifProbeTableRecycled     = verifProbeTableRecycled
+	VerifProbeTableFreedCleanup = verifProbeTableFreedCleanup
+	VerifProbeTableFreedShrink  = verifProbeTableFreedShrink
+	VerifProbeTableGrow         = verifProbeTableGrow
+	VerifProbeTableShrink       = verifProbeTableShrink
+	VerifProbeColumnResetSmall  = verifProbeColumnResetSmall
+	VerifProbeColumnResetLarge  = verifProbeColumnResetLarge
+	VerifProbeCacheAdd          = verifProbeCacheAdd
+	VerifProbeCacheRemove       = verifProbeCacheRemove
+	VerifProbeChildrenMoved     = verifProbeChildrenMoved
+	VerifProbeSwapRemove        = verifProbeSwapRemove
+	VerifProbeBatchIntoNonEmpty = verifProbeBatchIntoNonEmpty
+	VerifProbeCount             = verifProbeCount
+)
+
+func verifYield(kind uint8, mu *sync.Mutex) {
+	if Verif.Yield != nil {
+		Verif.Yield(kind, mu)
+	}
+}
+
+func verifSkew(start time.Time) time.Time {
+	if Verif.Skew != nil {
+		return Verif.Skew(start)
+	}
+	return start
+}
+
+func verifProbe(id uint8) {
+	if Verif.Probe != nil {
+		Verif.Probe(id)
+	}
+}
